@@ -69,10 +69,10 @@ func (c *collEntry) part(name string) *partEntry {
 // Catalog is a deep-copied snapshot of the downstream state.
 type Catalog struct {
 	Databases map[string]*Database
-	Users     map[string]string          // user -> password exactly as received in the request (base64)
-	Roles     []string                   // sorted
-	UserRoles map[string][]string        // user -> sorted roles
-	Grants    []*milvuspb.GrantEntity    // in grant order
+	Users     map[string]string       // user -> password exactly as received in the request (base64)
+	Roles     []string                // sorted
+	UserRoles map[string][]string     // user -> sorted roles
+	Grants    []*milvuspb.GrantEntity // in grant order
 }
 
 // Database is one downstream database.
